@@ -238,7 +238,7 @@ Definition its_pinned : Z -> list Z := its_with width_pinned abs64.
 (* repaired ints_to_strings (notes/C18.fix-1.diff): exact digit count, true magnitude *)
 Definition its_fixed : Z -> list Z := its_with width_exact Z.abs.
 (* SWITCH: the code as it is in /repo *)
-Definition its : Z -> list Z := its_pinned.
+Definition its : Z -> list Z := its_fixed.
 
 (* ---- dump_csv.get_column: the text of one cell by column type ---- *)
 Definition col_text_with (it : Z -> list Z) (f : fld) : list Z :=
